@@ -201,7 +201,7 @@ def reference(prog, pred, budget=150000):
 
 
 def compiled_vs(cols, exp, text, pred, rules=None, flags=None, ordered=False,
-                quirk_prog=None, info=None):
+                quirk_prog=None, info=None, cols_any_order=False):
     """Compile `pred` of program text with the real pipeline, run on SQLite, compare
     with the expected (cols, rows).  -> (status, bucket, detail)."""
     info = info if info is not None else {}
@@ -220,6 +220,13 @@ def compiled_vs(cols, exp, text, pred, rules=None, flags=None, ordered=False,
         return 'fail', 'internal:' + drive.exc_frame(e), \
             '%s\n--- predicate %s\n%s' % (traceback.format_exc()[-1500:], pred, text)
     info['sql'] = sql
+    if cols_any_order and hdr != cols and sorted(hdr) == sorted(cols) and \
+            len(set(hdr)) == len(hdr):
+        # the order of NAMED columns follows the first rule in the text; a statement
+        # permutation may legitimately change it: align by name
+        pos = [hdr.index(c) for c in cols]
+        rows = [tuple(r[i] for i in pos) for r in rows]
+        hdr = list(cols)
     if hdr != cols and not (not cols and len(hdr) == 1):
         return 'fail', 'columns_differ', 'expected columns %r got %r\n--- predicate %s\n%s' % (
             cols, hdr, pred, text)
